@@ -15,7 +15,7 @@ import argparse, fcntl, glob, hashlib, json, os, re, shutil, subprocess, sys, ti
 VERIF = os.path.dirname(os.path.dirname(os.path.abspath(__file__)))
 COQ = os.path.join(VERIF, "coq")
 BUILD = os.path.join(VERIF, "build")
-REPO = "/repo"
+REPO = os.environ.get("VERIF_REPO", "/repo")
 GOENV = dict(os.environ, GOFLAGS="-mod=mod", GOPROXY="off", GOSUMDB="off", GOTOOLCHAIN="local",
              CGO_ENABLED=os.environ.get("CGO_ENABLED", "0"))
 FORBIDDEN = re.compile(r"\b(Admitted|admit|Axiom|Axioms|Parameter|Parameters|Conjecture|Conjectures|"
@@ -65,7 +65,8 @@ def proof_stage(prop, tier, log):
     """Returns dict(obligations, discharged, axioms, problems, theorems)."""
     res = dict(obligations=0, discharged=0, axioms={}, problems=[], theorems=[], checker_cmd="")
     coq_project()
-    rc, out, dt = sh("make -j16", cwd=COQ, timeout=3000)
+    targets = [prop["props_file"][:-2] + ".vo"] + [t[:-2] + ".vo" for t in prop.get("extra_coq", [])]
+    rc, out, dt = sh("make -j16 " + " ".join(targets), cwd=COQ, timeout=6000)
     log.append("== make (%.1fs) rc=%d\n%s" % (dt, rc, out[-3000:]))
     if rc != 0:
         res["problems"].append("coq build failed: " + out[-1500:])
@@ -143,7 +144,12 @@ def build_driver(prop, log):
 
 
 def build_harness(cmdname, log):
-    hd = os.path.join(VERIF, "harness")
+    # private copy of the harness module whose replace directive points at the tree under test
+    hd = os.path.join(BUILD, "harness_" + cmdname)
+    shutil.rmtree(hd, ignore_errors=True)
+    shutil.copytree(os.path.join(VERIF, "harness"), hd)
+    gm = open(os.path.join(hd, "go.mod")).read().replace("=> /repo", "=> " + REPO)
+    open(os.path.join(hd, "go.mod"), "w").write(gm)
     shutil.copy(os.path.join(REPO, "go.sum"), os.path.join(hd, "go.sum"))
     os.makedirs(os.path.join(BUILD, "bin"), exist_ok=True)
     out_bin = os.path.join(BUILD, "bin", cmdname)
